@@ -2,6 +2,7 @@ SPECIFICATION MSpec
 CONSTANTS
   Acc = {"a", "b", "c"}
   Members = {"a", "b", "c"}
+  MaxJoins = 0
   MaxMsgs = 1
   MaxFaults = 1
   MaxOpen = 1
